@@ -113,7 +113,13 @@ class CacheRunner:
             self.cache.close()
         except Exception:
             pass
-        shutil.rmtree(self.dir, ignore_errors=True)
+        for o in getattr(self, 'others', []):
+            try:
+                o.close()
+            except Exception:
+                pass
+        if not getattr(self, 'keep_dir', False):
+            shutil.rmtree(self.dir, ignore_errors=True)
 
     # ------------------------------------------------------------------
     def _flags(self, r, et, tg, inner):
@@ -262,6 +268,41 @@ class CacheRunner:
                 res = '[' + ','.join(codec.render_key(x) for x in cache.iterkeys()) + ']'
             elif m == 'riterkeys':
                 res = '[' + ','.join(codec.render_key(x) for x in cache.iterkeys(reverse=True)) + ']'
+            elif m == 'reopen':
+                # close and open the directory again without arguments: stored settings apply
+                for cm in reversed(self.blocks):
+                    cm.__exit__(None, None, None)
+                self.blocks = []
+                self.rec.enabled = False
+                try:
+                    disk = type(cache.disk)
+                    cache.close()
+                    self.cache = self.env.core.Cache(self.dir, disk=disk)
+                finally:
+                    self.rec.enabled = True
+                res = 'n'
+            elif m == 'pickle':
+                import pickle as _p
+                self.rec.enabled = False
+                try:
+                    self.cache = _p.loads(_p.dumps(cache))
+                finally:
+                    self.rec.enabled = True
+                res = 'n'
+            elif m == 'second':
+                self.rec.enabled = False
+                try:
+                    other = self.env.core.Cache(self.dir, disk=type(cache.disk))
+                    self.others = getattr(self, 'others', []) + [cache]
+                    self.cache = other
+                finally:
+                    self.rec.enabled = True
+                res = 'n'
+            elif m == 'settings':
+                c = cache
+                lim = c.size_limit
+                res = '(s%s,i%d,i%d,i%d,i%d)' % (__import__('common').cps({v: k for k, v in POLICY.items()}[c.eviction_policy]), c.cull_limit, int(lim),
+                                               c.disk_min_file_size, int(bool(c.statistics)))
             elif m == 'check':
                 ws = [str(w.message) for w in cache.check()]
                 ws = [w for w in ws if not w.startswith('empty directory')]
